@@ -350,6 +350,85 @@ def music(x, p):
                 mu._data[a] == exp)
 
 
+# --- the loaded cart: map rows 32-63 live in *its* sprite memory -----------------
+
+P8_HEAD = (b'pico-8 cartridge // http://www.pico-8.com\n', b'version 33\n',
+           b'__lua__\n', b'x=1\n')
+P8_SEC = {'gfx': (b'__gfx__\n', b'0123456789abcdef' * 8 + b'\n'),
+          'map': (b'__map__\n', b'0a0b0c0d' * 32 + b'\n'),
+          'gff': (b'__gff__\n', b'01' * 128 + b'\n'),
+          'label': (b'__label__\n', b'76543210' * 16 + b'\n')}
+P8_LAYOUTS = [('gfx', 'map'), ('map', 'gfx'), ('gfx',), ('map',), (),
+              ('gfx', 'gff'), ('map', 'gff', 'gfx'), ('gfx', 'label', 'map'),
+              ('label', 'gfx'), ('map', 'gfx', 'gfx'), ('gfx', 'map', 'map')]
+
+
+def linkage(x, p):
+    """However a cart object came to be (read from a .p8 with its sections
+    in any order or absent - PICO-8 omits empty sections -, read from a
+    .p8.png, made empty), edits of map rows 32-63 through game.map land in
+    game.gfx, and game.map reads that memory."""
+    import os
+    from pico8.game.game import Game
+    from pico8.game.formatter.p8 import P8Formatter
+    from pico8.game.formatter.p8png import P8PNGFormatter
+    from pico8.game import file as gamefile
+    how = x.choice('loader', ['p8', 'p8png', 'empty', 'file'])
+    repo = os.environ.get('SYMX_REPO', '/repo')
+    try:
+        if how == 'p8':
+            layout = x.choice('layout', P8_LAYOUTS)
+            text = list(P8_HEAD)
+            for sec in layout:
+                text.extend(P8_SEC[sec])
+            g = P8Formatter.from_file(hx.MemStream(b''.join(text)),
+                                      filename='x.p8')
+        elif how == 'p8png':
+            with open(os.path.join(repo, 'tests', 'testdata',
+                                   'test_cart.p8.png'), 'rb') as fh:
+                g = P8PNGFormatter.from_file(fh, filename='x.p8.png')
+        elif how == 'file':
+            name = x.choice('fixture', ['test_cart.p8', 'test_cart.p8.png',
+                                        'test_cart_memdump.p8'])
+            g = gamefile.from_file(os.path.join(repo, 'tests', 'testdata',
+                                                name))
+        else:
+            g = Game.make_empty_game(filename='x.p8')
+    except Exception as e:
+        x.check('cart loads', False, info=repr(e))
+        return
+    x.check('regions have their sizes', And(len(g.gfx._data) == 8192,
+                                           len(g.map._data) == 4096))
+    gm = x.mem('gfx', 8192)
+    mm = x.mem('map', 4096)
+    oldg, oldm = hx.snap(gm), hx.snap(mm)
+    g.gfx._data = gm
+    g.map._data = mm
+    cx = x.int('x', 0, 127)
+    cy = x.int('y', 0, 63)
+    try:
+        got = g.map.get_cell(cx, cy)
+    except Exception as e:
+        x.check('get_cell on the loaded cart does not raise', False,
+                info=repr(e))
+        return
+    x.out('got', got)
+    x.check('game.map reads game.gfx for rows 32-63',
+            got == M.cell_get(oldm, oldg, cx, cy))
+    val = x.int('val', 0, 255)
+    try:
+        g.map.set_cell(cx, cy, val)
+    except Exception as e:
+        x.check('set_cell on the loaded cart does not raise', False,
+                info=repr(e))
+        return
+    a = x.int('addr', 0, 8191)
+    expg = Ite(And(cy >= 32, 4096 + (cy - 32) * 128 + cx == a), val, oldg[a])
+    x.check('game.map edits of rows 32-63 land in game.gfx',
+            g.gfx._data[a] == expg)
+    x.check('set then get on the loaded cart', g.map.get_cell(cx, cy) == val)
+
+
 Q = {'_budget': 200}
 HARNESSES = [
     Harness('get_sprite', get_sprite, logic='QF_AUFBV',
@@ -376,6 +455,7 @@ HARNESSES = [
             quick=[dict(Q, op=o) for o in ('set', 'clear', 'reset')]),
     Harness('sfx_note', sfx_note, logic='QF_AUFBV', quick=[Q]),
     Harness('sfx_props', sfx_props, logic='QF_AUFBV', quick=[Q]),
+    Harness('linkage', linkage, logic='QF_AUFBV', quick=[Q]),
     Harness('music', music, logic='QF_AUFBV',
             quick=[dict(Q, op='channel'), dict(Q, op='props')]),
 ]
